@@ -71,7 +71,8 @@ def build():
 claim("C01",
       "For every header-value / chunk-size line / chunk terminator / field line / request-line field / body-boundary "
       "input within the stated byte-length bounds, gunicorn's framing kernels agree with a strict RFC 9112 reference "
-      "whenever they accept (solver-exhausted path trees; twins prove the canonical spellings are still accepted).",
+      "whenever they accept (solver-exhausted path trees; twins prove the canonical spellings are still accepted). The "
+      "regex gates on field names, values, method and version accept only RFC-conforming strings of any length (direct z3).",
       "Bounded (field lengths 2-4 symbolic bytes, <=2 framing headers). Trusted: CrossHair+z3, engine/ch_ext.py "
       "(differentially validated), PyBytesIO shim (validated on all repository fixtures), oracles/rfc9112.py. "
       "Composition of kernels into whole-stream parsing relies on C06.", "4/C01")
@@ -111,7 +112,8 @@ claim("C06",
       "2-safety per kernel: Unreader use, read_line, the header-block scan, parse_chunk_size, a chunked body through "
       "Body.read, parse_trailers and LengthReader through Body.read/readline return the same result, raise the same "
       "exception class and leave the same logical residue for [data] and for data cut at solver-chosen positions, for "
-      "all byte contents within the length bound.",
+      "all byte contents within the length bound; the real RequestParser gives the same requests / rejection for 9 concrete "
+      "streams under every single cut, small double cuts and byte-by-byte feeding.",
       "Bounded: 2-6 symbolic bytes, 1-2 cuts, small symbolic limits/sizes; more pieces follow from the Unreader "
       "obligation by induction (argued, not mechanised). PyBytesIO shim in symbolic runs.", "4/C06")
 claim("C07",
@@ -132,8 +134,10 @@ claim("C09",
       "For a symbolic status tail, header name or header value (any unicode code point in every position, within the length "
       "bound) the head on the wire has exactly the server's lines + one per accepted header, every CR followed by LF and "
       "vice versa, no NUL; refused input sends zero bytes; hop-by-hop names in every case spelling are dropped; a second "
-      "start_response(exc_info) replaces the stored headers or re-raises.",
-      "Bounded: one symbolic field at a time, 0-3 characters. The wire bytes are judged structurally by index loops on "
+      "start_response(exc_info) replaces the stored headers or re-raises. The regex gates of start_response / "
+      "process_headers (pattern and applied method read from the source) accept only RFC token / field-value strings, for "
+      "strings of any length (direct z3 regex inclusion).",
+      "Bounded: one symbolic field at a time, 0-3 characters (the regex-gate obligation has no length bound). The wire bytes are judged structurally by index loops on "
       "the symbolic bytes.", "4/C09")
 claim("C10",
       "The real run()->handle_hup->reload()->spawn/manage loop against the simulated kernel with a solver-chosen new "
@@ -194,8 +198,9 @@ claim("C17",
       "live (or EPERM) other pid and takes over stale/garbage/empty files; with a crash before each mutating system call the "
       "path holds the complete old or the complete new content; unlink/rename touch a file only if it contains the "
       "instance's own pid; in all histories of 3-5 operations by two instances nobody removes the other's file or takes the "
-      "path from a live owner.",
-      "FS model: atomic rename, all-or-nothing write, no pid reuse. pids and file states from small enumerated sets.", "4/C17")
+      "path from a live owner; two create() calls interleaved at every mutating system call (solver-chosen schedule) never "
+      "expose partial content.",
+      "FS model (inodes, descriptors): atomic rename, all-or-nothing write, no pid reuse. pids and file states from small enumerated sets.", "4/C17")
 claim("C18",
       "Worker.__init__ computes max_requests + randint(0, jitter) (0 = never) for all small values; through the real "
       "handle() of each worker class the worker stays alive exactly until the limit-th request, that request is answered "
